@@ -140,7 +140,19 @@ pub fn run(c: &Case, tmp: &std::path::Path) -> Vec<String> {
             k += 1;
         }
         let _ = k;
-        let mut directory_pack = jbk::creator::DirectoryPackCreator::new(jbk::PackId::from(0), VENDOR, Default::default());
+        // free data: `packfree <48 hex>` for the directory pack, `indexfree <name> <8 hex>` for an index
+        let mut pack_free = [0u8; 24];
+        let mut index_free: std::collections::HashMap<String, [u8; 4]> = Default::default();
+        for l in &c.lines {
+            if l[0] == "packfree" {
+                pack_free.copy_from_slice(&unhex(&l[1]));
+            } else if l[0] == "indexfree" {
+                let mut f = [0u8; 4];
+                f.copy_from_slice(&unhex(&l[2]));
+                index_free.insert(l[1].clone(), f);
+            }
+        }
+        let mut directory_pack = jbk::creator::DirectoryPackCreator::new(jbk::PackId::from(0), VENDOR, pack_free.into());
         for s in &stores {
             directory_pack.add_value_store(s.clone());
         }
@@ -149,7 +161,7 @@ pub fn run(c: &Case, tmp: &std::path::Path) -> Vec<String> {
         for l in &c.lines {
             if l[0] == "index" {
                 has_index = true;
-                directory_pack.create_index(&l[1], Default::default(), 0.into(), sid, (l[3].parse::<u32>().unwrap()).into(),
+                directory_pack.create_index(&l[1], index_free.get(&l[1]).copied().unwrap_or_default().into(), 0.into(), sid, (l[3].parse::<u32>().unwrap()).into(),
                     jbk::EntryIdx::from(l[2].parse::<u32>().unwrap()).into());
             }
         }
